@@ -261,6 +261,11 @@ pub fn node_response_to(n: &Node, head_request: bool) -> Script {
     if n.location.is_some() && n.url.len() % 4 == 2 {
         head.push_str(&format!("Retry-After: {}\r\n", [5u32, 120, 0, 3600][(n.url.len() / 4) % 4]));
     }
+    // ... and say how long a cache may keep the redirect: the client is no cache, every send() of a request
+    // starts at the request's own URL
+    if n.location.is_some() && n.url.len() % 3 != 1 {
+        head.push_str(["Cache-Control: max-age=3600\r\n", "Cache-Control: public, max-age=31536000, immutable\r\n", "cache-control: immutable\r\nExpires: Thu, 31 Dec 2099 23:59:59 GMT\r\n"][(n.url.len() / 3) % 3]);
+    }
     let body = node_body(n);
     let followed = n.location.is_some() && FOLLOWED.contains(&n.status);
     if head_request {
@@ -572,7 +577,21 @@ fn slash_family(g: &mut G, ctx: &RunCtx) -> RunReport {
 pub fn scenario(g: &mut G, ctx: &RunCtx) -> RunReport {
     let mut max = g.below(7) as u32;
     let follow = !g.chance(1, 6);
-    let gr = gen_graph(g, (max as usize + 2).min(8));
+    let mut gr = gen_graph(g, (max as usize + 2).min(8));
+    // (no draw) the process has a catch-all proxy in its environment (ALL_PROXY) and exempts the chain's hosts from it
+    // (NO_PROXY); the walk takes its proxy settings from the environment.  A Location with another scheme than http(s)
+    // names a host of its own: it stays an error, it does not become a request to the catch-all proxy
+    let env_catch_all = gr.nodes.iter().any(|n| n.next == Next::NonHttp) && gr.nodes[0].url.len() % 2 == 0;
+    if env_catch_all {
+        for n in gr.nodes.iter_mut().filter(|n| n.next == Next::NonHttp) {
+            if let Some(l) = n.location.as_mut() {
+                for h in ["a.test", "b.test", "c.test"] {
+                    *l = l.replace(h, "files.example");
+                }
+            }
+        }
+        g.probe("non-http-location-with-a-catch-all-proxy-in-the-environment");
+    }
     // "unlimited" as callers write it - only over graphs without a cycle
     let acyclic = gr.nodes.iter().enumerate().all(|(i, n)| !matches!(n.next, Next::Node(j) if j <= i));
     if acyclic && g.chance(1, 8) {
@@ -583,6 +602,12 @@ pub fn scenario(g: &mut G, ctx: &RunCtx) -> RunReport {
     let sim = Sim::new(ctx.sim_config());
     let seen = Arc::new(Mutex::new(Seen::default()));
     install_graph(&sim, &gr, &seen);
+    if env_catch_all {
+        sim.add_host("catchall.test", vec!["10.0.0.77".parse().unwrap()]);
+        sim.add_host("files.example", vec!["10.0.0.78".parse().unwrap()]);
+        sim.set_env("ALL_PROXY", "http://catchall.test:3128");
+        sim.set_env("NO_PROXY", "a.test,b.test,c.test,intranet,10.0.0.1,10.0.0.2,10.0.0.3");
+    }
     let url0 = gr.nodes[0].url.clone();
     // the two settings are independent: whatever the order of the calls, wherever they are made (session
     // or request) and however often, the last value of each one counts
@@ -684,7 +709,9 @@ pub fn scenario(g: &mut G, ctx: &RunCtx) -> RunReport {
     }
     let out = sim.run(|| {
         let mut session = attohttpc::Session::new();
-        session.proxy_settings(attohttpc::ProxySettings::builder().build());
+        if !env_catch_all {
+            session.proxy_settings(attohttpc::ProxySettings::builder().build());
+        }
         for (on_session, op) in &prog2 {
             if *on_session {
                 match op {
